@@ -6,8 +6,22 @@ Definition show_ob (o : option bytes) : bytes := match o with Some x => hex x | 
 Definition show_okv (o : option kv) : bytes :=
   match o with Some (k, v) => hex k ++ [58] ++ hex v | None => [126] end.
 
-Definition dirs_of (s : bytes) : list dir :=
-  flat_map (fun c => if c =? 102 then [Front] else if c =? 98 then [Back] else if c =? 116 then [TakeBin] else []) s.
+(* Iterator::nth(k) / nth_back(k) are, by their std contract, k discarded steps followed by one
+   reported step: digits 0-9 are nth, letters A-J nth_back; the mask says which results are shown *)
+Definition steps_of (s : bytes) : list (dir * bool) :=
+  flat_map (fun c => if c =? 102 then [(Front, true)] else if c =? 98 then [(Back, true)] else if c =? 116 then [(TakeBin, true)]
+                     else if in_range 48 57 c then repeat (Front, false) (N.to_nat (c - 48)) ++ [(Front, true)]
+                     else if in_range 65 74 c then repeat (Back, false) (N.to_nat (c - 65)) ++ [(Back, true)]
+                     else []) s.
+Definition dirs_of (s : bytes) : list dir := map fst (steps_of s).
+Definition mask_of (s : bytes) : list bool := map snd (steps_of s).
+
+Fixpoint keep {A} (mask : list bool) (l : list A) : list A :=
+  match mask, l with
+  | true :: m, x :: r => x :: keep m r
+  | false :: m, _ :: r => keep m r
+  | _, _ => []
+  end.
 
 Definition op_of (tok : bytes) : option op :=
   match split_on 58 tok with
@@ -50,6 +64,18 @@ Definition show_item (x : option (frame + err)) : bytes :=
   | None => [126]
   end.
 
+(* response iterators print the size hint BEFORE each reported call: for nth(k) that is the size before the k discarded steps *)
+Definition keep_sized {A} (mask : list bool) (l : list (nat * A)) : list (nat * A) :=
+  (fix go (mask : list bool) (l : list (nat * A)) (pending : option nat) : list (nat * A) :=
+     match mask, l with
+     | true :: m, (sz, x) :: r => (match pending with Some p => p | None => sz end, x) :: go m r None
+     | false :: m, (sz, _) :: r => go m r (match pending with Some p => Some p | None => Some sz end)
+     | _, _ => []
+     end) mask l None.
+
+(* one mask per op (outputs of m_run are in op order; an owned iteration ends the run) *)
+Definition mask_ops (ops : list op) (masks : list (option (list bool))) : list (option (list bool)) := masks.
+
 Definition run_frame (kind : bytes) (args : list bytes) : bytes :=
   match args with
   | wire :: rest =>
@@ -61,15 +87,26 @@ Definition run_frame (kind : bytes) (args : list bytes) : bytes :=
         | f :: _ =>
           match all_some' (map op_of rest) with
           | None => b "badop"
-          | Some ops => join (b " ; ") (map show_out (m_run (mframe_of f) ops))
+          | Some ops =>
+            let masks := map (fun tok => match split_on 58 tok with
+                                         | [name; arg] => if beq name (b "iter") || beq name (b "into") then Some (mask_of arg) else None
+                                         | _ => None
+                                         end) rest in
+            join (b " ; ") (map (fun om => show_out (match fst om, snd om with
+                                                       | RPairs l, Some m => RPairs (keep m l)
+                                                       | RMixed l, Some m => RMixed (keep m l)
+                                                       | o, _ => o
+                                                       end))
+                                (combine (m_run (mframe_of f) ops) (mask_ops ops masks)))
           end
         end
       else
         match rest with
         | [_; dirs] =>
-          let ds := flat_map (fun c => if c =? 102 then [true] else if c =? 98 then [false] else []) dirs in
+          let st := steps_of dirs in
+          let ds := map (fun p => match fst p with Front => true | _ => false end) st in
           b "[" ++ join [44] (map (fun p => show_nat (fst p) ++ [58] ++ show_item (snd p))
-                                  (r_drive (mkR (r_frames r) (r_error r)) ds)) ++ b "]"
+                                  (keep_sized (map snd st) (r_drive (mkR (r_frames r) (r_error r)) ds))) ++ b "]"
         | _ => b "bad-case"
         end
     | _ => b "noresponse"
